@@ -18,11 +18,15 @@ import Refine.Gen.ReproConds
   NOT here (runtime clause, only exercised by streams `cli_repro` / `cli_memcheck`): uninitialised memory,
   address-space layout, the actual libc `rand()` sequence, MPI's own progress engine.
 
-  HOOK (package `rcb`): the native RCB partitioner (`ref_migrate_native_rcb_part`, `src/ref_migrate.c` ~556-611)
-  consumes 1 (2-D) or 3 (3-D) values of the `rand()` stream on rank 0 for the rotation and is otherwise
-  deterministic; once `Refine.Model.Rcb` exists the statement to add here is
-  `∀ rands, ∀ node, 0 ≤ part node ∧ part node < np` for the model function taking `rands` as an argument
-  (validity for ANY stream), determinism being by construction.  It is deliberately not modelled in this package.
+  HOOK (package `rcb`, separate clone, merged by the integrator): the native RCB partitioner
+  (`ref_migrate_native_rcb_part`, `src/ref_migrate.c` ~556-611) consumes 1 (2-D) or 3 (3-D) values of the `rand()`
+  stream on rank 0 per call and is otherwise deterministic.  It is deliberately NOT modelled here.  Package `rcb`
+  provides `Refine.Model.Rcb.rcbPart` with the stream as an explicit `rands : List Nat` and, in
+  `Refine.Props.C04Rcb`, `rcb_part_deterministic` (the new part of a vertex is a function of the owned-coordinate
+  multiset, the rand values, seed, twod, npart, np — not of rank distribution, slot order or ids),
+  `rcb_part_total` / `rcb_new_part_ok` (every owned slot is written exactly once, inside `[0, npart)`, for ANY
+  stream) and the tie `rcb_fn` / `rcb_balance` (harness-defined `rand()`).  Once merged, add
+  `'Refine.Props.C04Rcb'` to `PROPS_MODULE` and its streams to `STREAMS` in `checks/c18.py`.
 -/
 namespace Refine.Props.C18Mech
 open Refine.Model.CellStore Refine.Model.ReproEdge Refine.Model.ReproEdge.EdgeSt
